@@ -571,6 +571,14 @@ impl Envelope {
     /// assert_eq!(bob.assertions().len(), 2);
     /// ```
     pub fn replace_subject(&self, subject: Self) -> Self {
-        self.assertions().into_iter().fold(subject, |e, a| e.add_assertion_envelope(a).unwrap())
+        // Keep the new subject as the subject even when it is itself a node:
+        // adding the assertions to it one by one would merge them into that
+        // node's own assertions and change the digest.
+        let assertions = self.assertions();
+        if assertions.is_empty() {
+            subject
+        } else {
+            Self::new_with_unchecked_assertions(subject, assertions)
+        }
     }
 }
